@@ -96,7 +96,13 @@ func cloneWorld(e *env, b *baseImage, pcfg prunerCfg, cutoff uint64, name string
 	w.shadowDB = b.db.Copy()
 	w.shadow = lib.NodeOn(w.shadowDB, b.ch.g.Net, b.ch.newState)
 	w.ops = append(w.ops, opRec{Op: "base", N: uint64(b.height + 1), Note: "blocks stored before the pruner starts"})
-	lines := append([]string{w.cfgLine()}, b.lines...)
+	lines := []string{w.cfgLine()}
+	if cutoff > 0 {
+		// the model records a block's timestamp when the block is stored
+		lines = append(lines, w.tsLine())
+		w.tsSent = len(b.ch.g.Bundles)
+	}
+	lines = append(lines, b.lines...)
 	outs, err := w.drv.AskAll(lines)
 	if err != nil || len(outs) != len(lines) {
 		w.harnessFailed("model driver: %v (%d of %d answers)", err, len(outs), len(lines))
@@ -131,7 +137,9 @@ func allJobs(f lib.Flags) []job {
 	jobs = append(jobs, batchJobs(f)...)
 	jobs = append(jobs, minAgeJobs(f)...)
 	jobs = append(jobs, reviewJobs(f)...)
+	jobs = append(jobs, reorgJobs(f)...)
 	jobs = append(jobs, migrationJobs(f)...)
+	jobs = append(jobs, restageJobs(f)...)
 	jobs = append(jobs, pureJobs(f)...)
 	jobs = append(jobs, randomJobs(f)...)
 	return jobs
@@ -419,6 +427,15 @@ func batches(e *env, name string, seed uint64, newState bool, batch int, mode st
 		w.observe()
 		w.store()
 		w.observe()
+		// the pruned database opened without prune mode: unseeded floor, no pruner; it still stores and reverts
+		w.restartUnseeded()
+		w.observe()
+		if w.store() {
+			w.observe()
+		}
+		if uint64(w.height) > w.fspec && w.revert() {
+			w.observe()
+		}
 	}
 	if mode == "fork" {
 		run(0)
